@@ -3,7 +3,11 @@ import ShellOp.Model.Discovery
 /-! Line-protocol suite for C20 (hook discovery). Core-only.
 
 ```
-tree <rootName> <preorder tokens: d <name> … u | f <name> <octal mode> <ok|fail|invalid>[:<class>]>
+env hooksdir=<name> tmpdir=<path>   the other settings of the start (the hook set does not depend on them) -> ok
+tree <rootName> <preorder tokens: d <name> … u | f <name> <octal mode> <outcome> | l <name> <outcome>>
+                      outcome = ok[:<class>] | invalid[:<class>] | fail:<exitN|sigN|nostart…>:<none|valid>
+                      (`l`: a symbolic link to an executable file; `fail`: how the --config run ended and
+                       whether it had printed a valid configuration — the outcome comes from `loadOutcome`)
                       (a case may contain several `tree` lines: the hooks directory as it is at each
                        start of a hook manager in the same process; each replaces the model's tree)
                       -> walk=<relative paths in the order RecursiveGetExecutablePaths returned them>
@@ -18,12 +22,26 @@ open ShellOp ShellOp.Util ShellOp.Discovery
 structure St where
   root : Option (Path × Tree) := none
   proc : ProcState := procInit     -- what earlier starts of this case left behind in the process
+  silent : List Name := []         -- relative names of the files that cannot write the invocation log
 
 /-- `ok | fail | invalid`, optionally followed by `:<what the hook prints / does>` (the catalogue class
 of the configuration: the concrete input of the replay; the model only needs the outcome) -/
+def runEnd? (s : String) : Option RunEnd :=
+  if s.startsWith "nostart" then some .notStarted
+  else if s.startsWith "exit" then (s.drop 4).toString.toNat?.map .exited
+  else if s.startsWith "sig" then (s.drop 3).toString.toNat?.map .signaled
+  else none
+
 def outcome? (s : String) : Option Outcome :=
   match s.splitOn ":" with
-  | "ok" :: _ => some .ok | "fail" :: _ => some .fail | "invalid" :: _ => some .invalid | _ => none
+  | "ok" :: _ => some .ok
+  | "invalid" :: _ => some .invalid
+  | ["fail", e, o] => do
+    let e ← runEnd? e
+    if o == "valid" then some (loadOutcome e true)
+    else if o == "none" then some (loadOutcome e false)
+    else none
+  | _ => none
 
 def octal? (s : String) : Option Nat :=
   if s.isEmpty then none else
@@ -37,6 +55,9 @@ def parseTree : List String → List (Name × List Tree) → Option Tree
     let m ← octal? m
     let o ← outcome? o
     parseTree rest ((dn, Tree.file (bytesOf n) m o :: cs) :: st)
+  | "l" :: n :: o :: rest, (dn, cs) :: st => do
+    let o ← outcome? o
+    parseTree rest ((dn, Tree.link (bytesOf n) o :: cs) :: st)
   | "d" :: n :: rest, st => parseTree rest ((bytesOf n, []) :: st)
   | "u" :: rest, (dn, cs) :: st =>
     let t := Tree.dir dn cs.reverse
@@ -44,6 +65,22 @@ def parseTree : List String → List (Name × List Tree) → Option Tree
     | [] => if rest.isEmpty then some t else none
     | (pn, pcs) :: st' => parseTree rest ((pn, t :: pcs) :: st')
   | _, _ => none
+
+/-- a `--config` run that cannot be started (`fail:nostart…`) never executes a line of the file: the
+invocation log, which the generated hooks write themselves, cannot contain it. This is a limit of the
+observation `asked`, not of the property; everything else (Init fails, the error names the hook, the
+hooks before it were asked once, none after it) is still judged. -/
+def isSilent (o : String) : Bool := o.startsWith "fail:nostart"
+
+def relOf (stack : List String) (n : String) : Name := bytesOf ("/".intercalate (stack.reverse ++ [n]))
+
+/-- relative names of the silent files of a token list (same positional reading as `parseTree`) -/
+def silentNames : List String → List String → List Name
+  | "f" :: n :: _ :: o :: rest, stack => (if isSilent o then [relOf stack n] else []) ++ silentNames rest stack
+  | "l" :: n :: o :: rest, stack => (if isSilent o then [relOf stack n] else []) ++ silentNames rest stack
+  | "d" :: n :: rest, stack => silentNames rest (n :: stack)
+  | "u" :: rest, _ :: stack => silentNames rest stack
+  | _, _ => []
 
 def showPaths (rp : Path) (ps : List Path) : String :=
   showStrs (ps.map (fun p => strOf (relName rp p)))
@@ -62,12 +99,13 @@ def strictSorted : List Name → Bool
 
 def step (st : St) (toks : List String) : St × String :=
   match toks with
+  | "env" :: _ => (st, "ok")
   | "tree" :: rn :: rest =>
     match parseTree ("d" :: rn :: rest) [] with
     | some t =>
       let rp := bytesOf rn
       let r := startOnce rp st.proc t
-      ({ root := some (rp, t), proc := r.1 }, s!"walk={showPaths rp r.2.1}")
+      ({ root := some (rp, t), proc := r.1, silent := silentNames rest [] }, s!"walk={showPaths rp r.2.1}")
     | none => (st, "bad-op")
   | ["init"] =>
     match st.root with
@@ -75,7 +113,8 @@ def step (st : St) (toks : List String) : St × String :=
     | some (rp, t) =>
       let r := (startOnce rp st.proc t).2.2
       let err := match r.err with | some p => strOf (relName rp p) | none => "-"
-      (st, s!"names={showStrs (r.loaded.map strOf)} asked={showPaths rp r.asked} err={err}")
+      let heard := r.asked.filter (fun p => !st.silent.contains (relName rp p))
+      (st, s!"names={showStrs (r.loaded.map strOf)} asked={showPaths rp heard} err={err}")
   | "oracle" :: "discover" :: rest =>
     match st.root, kv? "got" rest with
     | some (rp, t), some got =>
@@ -103,7 +142,7 @@ def step (st : St) (toks : List String) : St × String :=
         else (st, s!"false want failed=0 names=asked={showStrs ((rel order).map strOf)} err=-")
       | some b =>
         -- initialization fails, the error names the first bad hook, nothing after it was asked
-        let wantAsked := rel (order.takeWhile okB ++ [b])
+        let wantAsked := (rel (order.takeWhile okB ++ [b])).filter (fun n => !st.silent.contains n)
         if failed == "1" && asked == wantAsked && err.contains (relName rp b) then (st, "true")
         else (st, s!"false want failed=1 asked={showStrs (wantAsked.map strOf)} err∋{strOf (relName rp b)}")
     | _, _, _, _, _ => (st, "bad-op")
